@@ -74,24 +74,33 @@ def check_split(rep, prog):
     ilog_slice = il[0].data[1][0]
     tr_slice = tr[0].data[1][0]
     L = tr[0].loops[-1]
-    okshape = isinstance(ilog_slice, Op) and ilog_slice.op == "getslice" and ilog_slice.args[0] == DATA and \
-        isinstance(tr_slice, Op) and tr_slice.op == "getslice" and tr_slice.args[0] == DATA
-    if not okshape:
-        raise AnalysisError("regions are not slices data[begin:end] of the dump")
+    # (the regions may be cut with index arithmetic, itertools.pairwise over the boundaries, ...: what counts is which bytes
+    # each formatter receives - the summary is run on a dump whose bytes are all different)
     bad = None
     n = 0
     size = 200
-    buf = bytes(size)
+    buf = bytes(range(size))
+
+    def region(t, env):
+        v = evaluate(t, env)
+        if isinstance(v, memoryview):
+            v = v.tobytes()
+        if not isinstance(v, (bytes, bytearray)):
+            raise CannotEval("region value %r" % (v,))
+        return bytes(v)
+
+    def show(bs):
+        return "[%d:%d]" % (bs[0], bs[-1] + 1) if bs else "[empty]"
     for cfg in ([], [0], [7], [199], [0, 50], [7, 50, 120], [0, 1, 2, 3, 4, 5], [10, 20, 30, 40, 50, 196]):
         env = pelx.with_heap(I, {S: cfg, DATA: buf, Op("len", DATA): size, Op("len", S): len(cfg), Op("truthy", S): bool(cfg), Op("truthy", DATA): True})
         try:
-            lo, hi = evaluate(ilog_slice.args[1], env), evaluate(ilog_slice.args[2], env)
+            got = region(ilog_slice, env)
         except CannotEval as e:
-            raise AnalysisError("ILOG region bounds not evaluable: %s" % e)
+            raise AnalysisError("ILOG region not evaluable: %s" % e)
         n += 1
         want = (0, cfg[0] if cfg else size)
-        if (lo, hi) != want:
-            bad = bad or "trace headers at %s: ILOG region is [%s:%s], expected [%d:%d]" % (cfg, lo, hi, want[0], want[1])
+        if got != buf[want[0]:want[1]]:
+            bad = bad or "trace headers at %s: ILOG region is %s, expected [%d:%d]" % (cfg, show(got), want[0], want[1])
         try:
             trip = evaluate(L.trip, env)
         except CannotEval as e:
@@ -102,13 +111,13 @@ def check_split(rep, prog):
             env2 = dict(env)
             env2[L.idx] = i
             try:
-                lo, hi = evaluate(tr_slice.args[1], env2), evaluate(tr_slice.args[2], env2)
+                got = region(tr_slice, env2)
             except CannotEval as e:
-                raise AnalysisError("trace region bounds not evaluable: %s" % e)
+                raise AnalysisError("trace region not evaluable: %s" % e)
             n += 1
             want = (cfg[i], cfg[i + 1] if i + 1 < len(cfg) else size)
-            if (lo, hi) != want:
-                bad = bad or "trace headers at %s: region %d is [%s:%s], expected [%d:%d]" % (cfg, i, lo, hi, want[0], want[1])
+            if got != buf[want[0]:want[1]]:
+                bad = bad or "trace headers at %s: region %d is %s, expected [%d:%d]" % (cfg, i, show(got), want[0], want[1])
     rep.count("region bound evaluations", n)
     rep.check(bad is None, rule, "ILOG = [0, first header), trace i = [header i, header i+1 or end): regions cover every byte once, in address order",
               where, "data[begin:end]", bad)
@@ -159,9 +168,24 @@ def check_file(rep, prog):
     ps = [e for e in I.events if e.kind == "opaquecall" and e.data[0] == "pel.hexdump.parse"]
     lines = Op("m:readlines", Op("file", df, Const("r")))
     okp = [tuple(e.data[1]) for e in ps] == [(lines, f) for f in fmts]
-    if okp and len(ps) == 2:
-        first = Op("call:pel.hexdump.parse", lines, fmts[0])
-        okp = implies(ps[1].guard, not_(first))[0]
+    pd0 = [e for e in I.events if e.kind == "opaquecall" and e.data[0] == DQ + "parse_dump_data"]
+    if okp and len(ps) == 2 and len(pd0) == 1:
+        # which parse result is decoded: by evaluation over the empty / non-empty combinations (whether the second format is
+        # tried eagerly or only after the first came back empty makes no difference: parsing has no side effect)
+        first, second = (Op("call:pel.hexdump.parse", lines, f) for f in fmts)
+        for v1 in (b"", b"\x01\x02"):
+            for v2 in (b"", b"\x03"):
+                env = {first: bytearray(v1), second: bytearray(v2), Op("truthy", first): bool(v1), Op("truthy", second): bool(v2),
+                       Op("len", first): len(v1), Op("len", second): len(v2)}
+                try:
+                    called = bool(evaluate(pd0[0].guard, env))
+                    got = evaluate(pd0[0].data[1][0], env) if called else None
+                except CannotEval as e:
+                    raise AnalysisError("choice of the parsed dump bytes not evaluable: %s" % e)
+                want = v1 or v2
+                got = bytes(got) if isinstance(got, (bytes, bytearray, memoryview)) else got
+                if (want and not called) or (called and got != want and not (not want and not got)):
+                    okp = False
     rep.check(okp, rule, "formats are tried in order on the file's lines; the first non-empty parse is used", DQ + "parse_dump_file",
               "for line_format in HEX_DUMP_LINE_FORMATS", "dump file is not parsed with each supported format in order (first non-empty wins)")
     pd = [e for e in I.events if e.kind == "opaquecall" and e.data[0] == DQ + "parse_dump_data"]
